@@ -79,6 +79,10 @@ def _lattice_case(task):
     nb = [sorted(x.tolist()) for x in md.compute_neighbors(b, 3.5 * G, [0], periodic=periodic)]
     if na != nb:
         probs.append("compute_neighbors changed")
+    la = [sorted(int(v) for v in x) for x in md.compute_neighborlist(a, 3.5 * G, periodic=periodic)]
+    lb = [sorted(int(v) for v in x) for x in md.compute_neighborlist(b, 3.5 * G, periodic=periodic)]
+    if la != lb:
+        probs.append("compute_neighborlist changed")
     if not periodic:
         if abs(md.compute_rg(a)[0] - md.compute_rg(b)[0]) > 20 * tol:
             probs.append("compute_rg changed")
@@ -123,6 +127,8 @@ def _observe(t, ref, periodic, discrete=True, sasa=False):
             o["kabsch_sander"] = sorted((int(r), int(c)) for r, c in zip(ks.row, ks.col))
             o["dssp"] = "".join(md.compute_dssp(t, simplified=False)[0])
         o["neighbors"] = sorted(md.compute_neighbors(t, 0.45, np.array(ca[:3]), periodic=periodic)[0].tolist())
+        nl = md.compute_neighborlist(t, 0.45, periodic=periodic)
+        o["neighborlist"] = [sorted(int(v) for v in nl[i]) for i in ca]
     if sasa:
         sub = t.atom_slice(list(range(120)))
         o["sasa_total"] = np.array([md.shrake_rupley(sub, n_sphere_points=2000).sum()])
